@@ -37,6 +37,7 @@ type HarnessCfg struct {
 	Int      bool                      `json:"int"`       // add the cvc5 --solve-bv-as-int back end to the portfolio (div/mod by constants)
 	MaxSec   map[string]int            `json:"max_seconds"` // tier -> exploration budget
 	QuickMs  int                       `json:"quick_ms"`  // time slice of the persistent primary solver before the portfolio
+	Summarise []string                 `json:"summarise"` // pure scalar functions (ssa names) whose paths are merged into one term at every call
 	MapOrder []string                  `json:"map_order"` // functions (ssa names) whose map ranges are explored in every iteration order
 }
 
@@ -359,6 +360,12 @@ func (r *Run) runHarness(prog *ssa.Program, h HarnessCfg) *HResult {
 	}
 	cfg := sym.Config{LoopBound: h.Loop, MaxPaths: h.MaxPaths, BlackHole: append(append([]string{}, defaultBlackHole...), r.cfg.BlackHole...),
 		NoInit: r.cfg.NoInit, Verbose: r.verbose, InlineGo: h.InlineGo, Progress: true}
+	if len(h.Summarise) > 0 {
+		cfg.Summarise = map[string]bool{}
+		for _, fn := range h.Summarise {
+			cfg.Summarise[fn] = true
+		}
+	}
 	if len(h.MapOrder) > 0 {
 		cfg.MapOrder = map[string]bool{}
 		for _, fn := range h.MapOrder {
